@@ -1,8 +1,10 @@
 (* Props/C06b.v — property C06, continuation: the fused contraction strategy
-   computes the same VALUES as the blockwise one, and all modes of tensordot agree.
-   Statements only; proofs live in Proofs/FusedSem.v and Proofs/FusedSemGen.v (on
-   top of Proofs/FuseGroups.v for C05, Proofs/Tdot.v for C02, Proofs/FusedProofs.v
-   for the alignment, Proofs/WfProofs.v for C01).
+   computes the same result as the blockwise one up to additional all-zero
+   blocks, and all modes of tensordot agree.  Statements only; proofs live in
+   Proofs/FusedSem.v, Proofs/FusedSemGen.v (one or more contracted axes) and
+   Proofs/FusedSemOuter.v (no contracted axis), on top of Proofs/FuseGroups.v for
+   C05, Proofs/Tdot.v for C02, Proofs/FusedProofs.v for the alignment and
+   Proofs/WfProofs.v for C01.
 
    Full record equality of the two results is FALSE in general: with two or more
    free legs on both sides the fused route stores additional all-zero blocks
@@ -10,34 +12,37 @@
    What holds, for every symmetry with GroupLaws / OrderLaws, every ring with
    SumLaws, all ranks and tables, valid operands a b whose contracted legs match
    (same chargemap, opposite direction), distinct in-range contracted axes aa / ab
-   (ONE OR MORE), free legs la / rb of ANY number of axes (none, one, several):
+   of ANY number (none, one, several), free legs la / rb of ANY number of axes:
 
-     C06_fused_eq_blockwise:  equal charge; EQUAL INDEX TABLES (after the alignment
-       every charge of a free leg occurs in a stored sector that has a partner, so
-       the pruning of the blockwise result drops nothing and both results carry the
-       free legs of the aligned operands); and
-       sem (fused) cs = sem (blockwise) cs for EVERY coordinate list cs in range of
-       the free legs of the aligned operands (a superset of the coordinates in
-       range of either result's own tables).
-     C06_all_modes_agree:  auto / fused / blockwise of a_tensordot2 return results
-       with equal charge, equal index tables and equal sem everywhere
-       (C06_all_modes_agree_full with the extra hypothesis aa <> []).
+     C06_fused_eq_blockwise_full_proved  (= the Definition
+       C06_fused_eq_blockwise_full of Props/C06.v, now a theorem): equal charge;
+       EQUAL INDEX TABLES (after the alignment every charge of a free leg occurs in
+       a stored sector that has a partner, so the pruning of the blockwise result
+       drops nothing and both results carry the free legs of the aligned operands);
+       and sem (fused) cs = sem (blockwise) cs for EVERY coordinate list cs (in
+       range: the value theorem; a sector stored by only one route holds an
+       all-zero block; a sector stored by both holds equal tensors).
+     C06_all_modes_agree_full_proved  (= C06_all_modes_agree_full): auto / fused /
+       blockwise of a_tensordot2 return results with equal charge, equal index
+       tables and equal sem everywhere.
+     C06_fused_eq_blockwise / C06_all_modes_agree: the same, spelled out.
 
-   Ingredients, each a theorem: (i) alignment preserves wf_array (the `_full`
-   statement of Props/C06.v); (ii) C06_fused_coordinate_sum_split: a sum over the
-   coordinates of one fused index = the sum over all (sub-sector, sub-offsets)
-   tuples of the fused legs, tuples no stored sector has counting zero;
-   (iii) C06_pruned_unfuse_sem: unfusing a leg whose table is a fused index with
-   unused charges dropped reads the fused coordinate; (iv) the coordinate
-   semantics of fuse_core (Props/C05b.v, C05_fuse_core_sem).
+   Ingredients, each a theorem: (i) alignment preserves wf_array
+   (C06_alignment_preserves_wf_full, now proved); (ii)
+   C06_fused_coordinate_sum_split: a sum over the coordinates of one fused index =
+   the sum over all (sub-sector, sub-offsets) tuples of the fused legs, tuples no
+   stored sector has counting zero; (iii) C06_pruned_unfuse_sem: unfusing a leg
+   whose table is a fused index with unused charges dropped reads the fused
+   coordinate; (iv) the coordinate semantics of fuse_core (Props/C05b.v,
+   C05_fuse_core_sem).
 
-   Not covered: no contracted axis at all (aa = []) through the FUSED route (then
-   `auto` takes the blockwise route: C06_tensordot_modes).  C03_tensordot_element_full is NOT discharged: it is stated for
-   Fermi.f_tensordot over Array.tdot_fused (a_unfuse_all) with blocks_ok operands,
-   the theorems here are for Fused.tdot_fused2 with wf_array operands. *)
+   C03_tensordot_element_full is NOT discharged here: it is stated for
+   Fermi.f_tensordot over Array.tdot_fused (a_unfuse_all) with blocks_ok operands;
+   the theorems here are for Fused.tdot_fused2 (the repaired strategy) with
+   wf_array operands. *)
 From SV Require Import Base.Prelude Base.Sym Base.Tensor Model.Sectors Model.Array Model.Wf Model.Fused
   Model.SymInst Proofs.SymLaws Proofs.Tdot Proofs.OrderProofs Proofs.FuseProofs Proofs.FuseGroups
-  Proofs.FusedProofs Proofs.FusedSem Proofs.FusedSemGen Props.C06.
+  Proofs.FusedProofs Proofs.FusedSem Proofs.FusedSemGen Proofs.FusedSemOuter Props.C06.
 Local Open Scope nat_scope.
 
 Theorem C06_alignment_preserves_wf_proved : C06_alignment_preserves_wf_full.
@@ -89,6 +94,12 @@ Theorem C06_pruned_unfuse_sem :
                     offset (map (sz G R x s') g) (map snd csub)) :: cR).
 Proof. exact pruned_unfuse_and_sem. Qed.
 
+Theorem C06_fused_eq_blockwise_full_proved : C06_fused_eq_blockwise_full.
+Proof. exact fused_eq_blockwise_full_stmt. Qed.
+
+Theorem C06_all_modes_agree_full_proved : C06_all_modes_agree_full.
+Proof. exact all_modes_agree_full_stmt. Qed.
+
 Theorem C06_fused_eq_blockwise :
   forall (G : Symmetry) (R : Ring), GroupLaws G -> OrderLaws G -> SumLaws R ->
   forall (a b : aarray G R) (la aa ab rb : list nat),
@@ -96,13 +107,12 @@ Theorem C06_fused_eq_blockwise :
   axes_ok (ndim G R a) aa = true -> axes_ok (ndim G R b) ab = true ->
   legs_match G R a b aa ab ->
   la = rest_axes (ndim G R a) aa -> rb = rest_axes (ndim G R b) ab ->
-  aa <> [] ->
   let f := tdot_fused2 G R a b la aa ab rb in
   let w := tdot_blockwise G R a b la aa ab rb in
   charge G R f = charge G R w /\
   indices G R f = indices G R w /\
   forall cs, sem G R f cs = sem G R w cs.
-Proof. exact fused_eq_blockwise. Qed.
+Proof. exact fused_eq_blockwise_full_stmt. Qed.
 
 Theorem C06_all_modes_agree :
   forall (G : Symmetry) (R : Ring), GroupLaws G -> OrderLaws G -> SumLaws R ->
@@ -110,14 +120,16 @@ Theorem C06_all_modes_agree :
   parse_axes (ndim G R a) (ndim G R b) axes = Some (aa, ab) ->
   wf_array G R a = true -> wf_array G R b = true ->
   axes_ok (ndim G R a) aa = true -> axes_ok (ndim G R b) ab = true ->
-  legs_match G R a b aa ab -> aa <> [] ->
+  legs_match G R a b aa ab ->
   exists r1 r2, a_tensordot2 G R a b axes m1 = Some r1 /\ a_tensordot2 G R a b axes m2 = Some r2 /\
     charge G R r1 = charge G R r2 /\ indices G R r1 = indices G R r2 /\
     forall cs, sem G R r1 cs = sem G R r2 cs.
-Proof. exact all_modes_agree. Qed.
+Proof. exact all_modes_agree_full_stmt. Qed.
 
 Print Assumptions C06_alignment_preserves_wf_proved.
 Print Assumptions C06_fused_coordinate_sum_split.
 Print Assumptions C06_pruned_unfuse_sem.
 Print Assumptions C06_fused_eq_blockwise.
 Print Assumptions C06_all_modes_agree.
+Print Assumptions C06_fused_eq_blockwise_full_proved.
+Print Assumptions C06_all_modes_agree_full_proved.
